@@ -15,7 +15,7 @@ import (
 	"verifh/hx"
 )
 
-func main() { hx.Main(map[string]func(*hx.Ctx){"c09": runC09, "c10": runC10}) }
+func main() { hx.Main(map[string]func(*hx.Ctx){"c09": runC09, "c10": runC10, "c15": runC15, "tracker": runTracker}) }
 
 /* ---------------------------------------------------------------- step builders */
 
@@ -144,6 +144,13 @@ func runC09(c *hx.Ctx) {
 func runC10(c *hx.Ctx) {
 	r := newRunner(c)
 	for _, sc := range c10Scenarios(c) {
+		r.run(sc)
+	}
+}
+
+func runC15(c *hx.Ctx) {
+	r := newRunner(c)
+	for _, sc := range c15Scenarios(c) {
 		r.run(sc)
 	}
 }
